@@ -325,7 +325,9 @@ def run(ctx):
             if "phase" in cls:
                 known["phase"] += 1          # finding D15: INTERVAL phase of secondary / shifted rules is not kept
                 continue
-            special = cls & {"count-shared", "exrule-count", "rdate-exrule", "dst-gap-writeout"}
+            if "easter" in cls and any(r_.byweekno for r_ in allr):
+                cls.add("weekno-easter")
+            special = cls & {"count-shared", "exrule-count", "rdate-exrule", "dst-gap-writeout", "weekno-easter"}
             if special and special <= known_classes:
                 known[min(special)] += 1     # findings D161..D164: one shape each
                 continue
